@@ -383,17 +383,33 @@ impl Interpreter {
                 }
                 state.stack.push_bigint(a % b)?;
             }
-            OpCodes::OP_LSHIFT => {
-                let a = state.stack.pop_bigint()?;
-                let b = state.stack.pop_number()?;
+            OpCodes::OP_LSHIFT | OpCodes::OP_RSHIFT => {
+                // x n OP_LSHIFT: logical shift of the byte string x by n bits, the length of x is preserved
+                let n = state.stack.pop_number()?;
+                let x = state.stack.pop_bytes()?;
 
-                state.stack.push_bigint(a << b)?;
-            }
-            OpCodes::OP_RSHIFT => {
-                let a = state.stack.pop_bigint()?;
-                let b = state.stack.pop_number()?;
-
-                state.stack.push_bigint(a >> b)?;
+                if n < 0 {
+                    return Err(InterpreterError::InvalidStackOperation("Shift count must not be negative"));
+                }
+                let (byte_shift, bit_shift) = ((n / 8) as usize, (n % 8) as u32);
+                let len = x.len();
+                let mut shifted = vec![0u8; len];
+                for i in 0..len {
+                    if *opcode == OpCodes::OP_LSHIFT {
+                        if let Some(src) = i.checked_add(byte_shift).filter(|s| *s < len) {
+                            shifted[i] = x[src] << bit_shift;
+                            if bit_shift > 0 && src + 1 < len {
+                                shifted[i] |= x[src + 1] >> (8 - bit_shift);
+                            }
+                        }
+                    } else if let Some(src) = i.checked_sub(byte_shift) {
+                        shifted[i] = x[src] >> bit_shift;
+                        if bit_shift > 0 && src >= 1 {
+                            shifted[i] |= x[src - 1] << (8 - bit_shift);
+                        }
+                    }
+                }
+                state.stack.push_bytes(shifted);
             }
             OpCodes::OP_BOOLAND => {
                 let a = state.stack.pop_bool()?;
